@@ -101,6 +101,33 @@ def build(tier, seed):
         kern.bounds = ['<= 3 headers, <= 1 inline contents, <= 3 registered items']
         return kern
     ks.append(kernel_or_error('wrapper_file', wfile))
+    def body():
+        ser = rd('codegen/serialize.rs')
+        imp = extract(ser, r"^impl<'a> CSerialize<'a> for Function \{", what='impl CSerialize for Function')
+        a = imp.find('let args = {')
+        m = re.search(r'writeln!\(writer, "\}\}"\)\?;\s*Ok\(\(\)\)', imp)
+        if a < 0 or not m:
+            raise SliceError('Function::serialize: body region (let args = { .. writeln!(writer, "}}")?; Ok(())) not found')
+        region = imp[a:m.end()]
+        n = {}
+        region, n['count'] = re.subn(r'format!\("arg_\{count\}"\)', 'format!("arg_{}", count)', region)
+        region, n['name'] = re.subn(r'write!\(buf, "\{name\}"\)', 'write!(buf, "{}", name)', region)
+        region, n['ap'] = re.subn(r'"ap"\.to_owned\(\)', 'Tok::from("ap")', region)
+        if n['count'] != 1 or n['name'] != 1:
+            raise SliceError('Function::serialize: expected format!("arg_{count}") and write!(buf, "{name}") once each')
+        sargs = extract(ser, r'^fn serialize_args<W: Write>\(', what='serialize_args')
+        ssep = extract(ser, r'^fn serialize_sep<', what='serialize_sep')
+        h = open(os.path.join(G, 'harness', 'c16_body.rs')).read().replace('/*BODY*/', region).replace('/*SERIALIZE_ARGS*/', sargs.replace('<W: Write>', '').replace('&mut W', '&mut Out')).replace('/*SERIALIZE_SEP*/', ssep.replace('W: Write,', '').replace('&mut W', '&mut Out'))
+        kern = Kernel(name='wrapper_body')
+        kern.files = {'src/lib.rs': h}
+        kern.harnesses = [H('wrapper_forwards_every_parameter_in_its_place', timeout=900, desc='body of CSerialize for Function with the real serialize_args / serialize_sep: the wrapper declares the wrapped parameters (minus the va_list), forwards each at its original position with `ap` where the va_list was, va_start names the last named parameter', sample='<= 3 parameters named or not, va_list at any position or none, void or not')]
+        kern.encoded = [enc('codegen/serialize.rs', 'impl CSerialize for Function: body', region if False else imp[a:m.end()]), enc('codegen/serialize.rs', 'fn serialize_args', sargs), enc('codegen/serialize.rs', 'fn serialize_sep', ssep)]
+        kern.stubs = ['write! / writeln!: one arm per literal format string, recording an event', 'String = Tok (identity of a name)', 'rewrites: format!("arg_{count}") -> format!("arg_{}", count), write!(buf, "{name}") -> write!(buf, "{}", name) (macro hygiene), "ap".to_owned() -> Tok::from("ap"); the writer type parameter W of serialize_args / serialize_sep is fixed to the event sink',
+                      'ArgList adaptors cloned / enumerate / filter_map: inherent and eager', 'Type::serialize / TypeId::serialize: record the return type / a parameter']
+        kern.assumptions = ['utils::wrap_as_variadic_fn only wraps functions with at least two parameters and exactly one va_list (read)']
+        kern.bounds = ['<= 3 parameters']
+        return kern
+    ks.append(kernel_or_error('wrapper_body', body))
     # registrations made inside modules must reach the top-level result (CodegenResult::inner; kernel shared with C01)
     try:
         from props import c01
